@@ -61,6 +61,33 @@ CLAIMED = {
             "3-D sequence axes < 2^21; adaptors on a 2x2x3 volume, for_each regions inside 3x3x3; MultiSlice in the thorough tier only; Repeater::get and loadRAW/mmapRAW outside; "
             "integers encoded with explicit mod 2^64 and Euclidean div/mod witnesses; lemma cuts proved in their own obligations",
             "symbolic execution of LLVM IR into SMT (z3 nonlinear integer arithmetic) + bounded model checking (cbmc)"),
+    "C08": ("model_checking",
+            "cbmc bounded model checking of the real IntrusivePtr/RefCountedObject code: all operation histories (copy/move/raw/null assignment, copy/move/converting "
+            "construction, explicit refInc/refDec, creator release) over 2 objects and 3 handles with a ghost count of references; destruction exactly once at the last "
+            "release, no access to freed memory; concurrent use decided as a lockset data-race obligation on the object's bytes (atomic accesses share a pseudo-lock).",
+            "DESIGN.md 3/C08",
+            "history length 3 (quick) / 4 (thorough); self-move-assignment not exercised; concurrency: data-race freedom by lockset discipline in a sequential run "
+            "(atomicity violations that are not data races, >2 threads and weak memory are outside); TSan confirms race counterexamples natively",
+            "bounded model checking (cbmc) of LLVM-IR-derived C with ghost reference model and lockset race instrumentation"),
+    "C12": ("model_checking",
+            "cbmc bounded model checking of TransactionalValue/TransactionalBuffer: every operation-level interleaving of producers and consumer up to the bound against a reference "
+            "model (values assigned, in order, update() truth, last value delivered; each element in exactly one batch, per-producer order, size/empty), plus the obligation that every "
+            "access to the shared object happens under its mutex (lockset instrumentation of all IR loads/stores on the object's bytes), which is what makes operation granularity sound.",
+            "DESIGN.md 3/C12",
+            "4 (quick) / 6 (thorough) scheduled operations; <= 2 producers; int payload; sequential consistency; pthread mutex by model; race counterexamples confirmed with ThreadSanitizer",
+            "bounded model checking (cbmc) with lockset race instrumentation, TSan replay"),
+    "C19": ("model_checking",
+            "cbmc bounded model checking of Observable/Observer (three fixed object lifecycles x every notify/poll pattern up to the bound, against a per-observer reference model; "
+            "no access to freed memory in either destruction order) and of TimeStamp (one step from an arbitrary counter; two real cbmc threads x (create+renew) over all interleavings: values distinct, per-thread increasing).",
+            "DESIGN.md 3/C19",
+            "notify/poll phases of length 2 (quick) / 3 (thorough); 1 observable, 2 observers; lifecycles fixed per entry (fully symbolic lifecycles do not finish); counter wrap at 2^64 outside; SC, 2 threads",
+            "bounded model checking (cbmc), incl. cbmc's native thread interleaving for the pointer-free TimeStamp code"),
+    "C20": ("model_checking",
+            "cbmc bounded model checking of SaveImage.h for all six writers and every image size up to the bound with symbolic pixel values: header format string and dimensions, payload length, "
+            "decoded pixels (row flip, channel selection), file closed, and no read outside the width x height pixels given (exact heap bounds). stdio is replaced by a capturing model.",
+            "DESIGN.md 3/C20",
+            "image sizes 1..2 (quick) / 1..3 (thorough) in each dimension; tracing::saveLog and event recording NOT covered (std::ofstream/unordered_map/chrono internals cannot be encoded within reach)",
+            "bounded model checking (cbmc) of LLVM-IR-derived C with an stdio capture model, ASan replay"),
 }
 
 NOT_YET = "check not yet built (work in progress, see DESIGN.md section 7)"
